@@ -85,6 +85,7 @@ func (s *OutlineServer) loadConfig(filename string) error {
 	if err != nil {
 		return err
 	}
+	verifPoint("newStarted")
 	if err := s.Stop(); err != nil {
 		slog.Warn("Failed to stop old config.", "err", err)
 	}
